@@ -4,6 +4,22 @@ correspondence suites (name, quick cases, thorough cases), fact obligations."""
 STD_TRUST = []
 
 PROPS = {
+    "C14": {
+        "theorems": ["C14_inv", "C14_lookup", "C14_atomic", "C14_remove_absent", "C14_twoway"],
+        "suites": [("schema14", 1500, 60000)],
+        "level_text": "Invariant by induction over every finite history of the seven editing calls (C14_inv: well-formedness and no panic), atomicity of failing edits on every reachable state (C14_atomic), removal of something absent (C14_remove_absent), agreement of the lookups with the list (C14_lookup) and success + both sides of AddTwoWayRel in either direction and within one type (C14_twoway) are Lean theorems, unbounded. The real Schema/Type methods are tied to the model by replaying the same random histories (collision-heavy name alphabet) on both and comparing the result class and the full schema dump after every call; the Go side also evaluates the invariant, atomicity and the two-way clause directly on the real schema.",
+        "level_note": "Trusted: Lean kernel; propext/Classical.choice/Quot.sound; hand-written mirror of schema.go editing methods and type.go AddAttr/AddRel/RemoveAttr/RemoveRel (validated by correspondence). Domain as in DESIGN.md §6 C14: Type values handed to AddType are well-formed; attribute and relationship names share one namespace. AddTwoWayRel's index-based update is modelled name-based, which coincides on every schema with unique type names (i.e. every reachable one, by C14_inv).",
+        "assumptions": ["Go maps behave as finite maps (association list with unique keys)",
+                        "append(s[:i], s[i+1:]...) removes element i (aliasing of the old backing array by copies of the slice header is not modelled)"],
+    },
+    "C15": {
+        "theorems": ["C15_sound_complete", "C15_each", "C15_pure_fact", "C15_total"],
+        "facts": ["writesThrough(Schema.Check)=false", "writesThrough(Schema.GetType)=false"],
+        "suites": [("schema15", 3000, 100000)],
+        "level_text": "Check's verdict is characterised by a Lean theorem for every schema with non-empty type names: no error iff no relationship is offending (dangling target, or inverse named but declared from another type / not reciprocated by a relationship of the target type that names it back and points back), and each offending relationship contributes at least one error. Purity: the model of Check returns no schema, and the regenerated fact that Schema.Check and Schema.GetType do not assign through their receiver is a decide-checked obligation. Correspondence compares the number of errors on schemas with planted faults of every kind; the Go side evaluates the iff and the lower bound with an independent reading of 'offending' and checks the schema dump is unchanged.",
+        "level_note": "Trusted: Lean kernel; the three standard axioms; mirror of schema.go Check/GetType (validated by correspondence); the go/ast extractor for the write facts. Error texts are not modelled, only their number per relationship.",
+        "assumptions": ["type names in the schema are non-empty (C14's invariant), so 'the zero Type was returned' means 'no such type'"],
+    },
     "C16": {
         "theorems": ["C16_invert_invert", "C16_normalize_mem", "C16_normalize_oneway", "C16_normalize_idem",
                      "C16_normalize_invert", "C16_string_invert", "C16_rels", "C16_rels_pair_once",
